@@ -209,14 +209,19 @@ def kind_of(v):
     return "value"
 
 
-def agree(repo, rel_a, rel_b, qual, label, reg, uni, ex_cls):
+def agree(repo, rel_a, rel_b, qual, label, reg, uni, ex_cls, quals=None):
     """-> list of obligation dicts."""
     short = "ms_modern"
     base = f"C14/{short}::{qual}/agree#{label}"
     ma, mb = loader.module(rel_a, repo), loader.module(rel_b, repo)
-    fa, fb = ma.functions.get(qual), mb.functions.get(qual)
+    qa, qb = quals or (qual, qual)
+    fa, fb = ma.functions.get(qa), mb.functions.get(qb)
     if fa is None or fb is None:
-        return [ground_obligation(base, False, "function missing", rel_a, kind="agree", definite=False)]
+        return [ground_obligation(f"{base}.{part}", False, "function missing", rel_a, kind="agree", definite=False) for part in ("prologue", "loop-step", "epilogue")]
+    # private helpers (e.g. a per-format reader split off the sniffer) are inlined, `return helper(...)` included
+    from contracts.c14_inline import inlined as _inl
+    fa = _inl(ma, qa, tail=True)[0] or fa
+    fb = _inl(mb, qb, tail=True)[0] or fb
 
     def alpha(fn):
         m = {}
@@ -233,14 +238,17 @@ def agree(repo, rel_a, rel_b, qual, label, reg, uni, ex_cls):
         return ast.dump(ast.Module(body=f2.body, type_ignores=[]))
     consts_equal = ast.dump(ma.assigns.get("_JPEG_SOF_MARKERS") or ast.Constant(value=None)) == ast.dump(mb.assigns.get("_JPEG_SOF_MARKERS") or ast.Constant(value=None))
     if alpha(fa) == alpha(fb) and consts_equal:
-        return [ground_obligation(base, True, "the two copies are identical up to the names of locals (and use the same marker table)", rel_a, kind="agree")]
+        return [ground_obligation(f"{base}.{part}", True, "the two copies are identical up to the names of locals (and use the same marker table)", rel_a, kind="agree")
+                for part in ("prologue", "loop-step", "epilogue")]
     sa, sb = split_function(fa), split_function(fb)
     if sa is None or sb is None:
-        return [ground_obligation(base, False, "no single marker loop found: shape not recognised", rel_a, kind="agree", definite=False)]
+        return [ground_obligation(f"{base}.{part}", False, "no single marker loop found: shape not recognised", rel_a, kind="agree", definite=False)
+                for part in ("prologue", "loop-step", "epilogue")]
     pre_a, step_a, post_a, test_a, state_a, par_a = sa
     pre_b, step_b, post_b, test_b, state_b, par_b = sb
     if len(state_a) != len(state_b) or len(par_a) != 1 or len(par_b) != 1:
-        return [ground_obligation(base, False, f"loop state {state_a} vs {state_b}: not matched", rel_a, kind="agree", definite=False)]
+        return [ground_obligation(f"{base}.{part}", False, f"loop state {state_a} vs {state_b}: not matched", rel_a, kind="agree", definite=False)
+                for part in ("prologue", "loop-step", "epilogue")]
     D = z3.Array("agree.D", z3.IntSort(), z3.IntSort())
     N = z3.Int("agree.len")
     from pyvc.values import VSeq
